@@ -121,7 +121,21 @@ def dedup (l : List String) : List String := l.foldl (fun acc s => if acc.contai
 
 def verdict (toks : List String) (out : String) : String :=
   match toks with
-  | ["const"] => if out = "min:" ++ toString minScore then "ok const" else "diff min:" ++ toString minScore
+  -- `minScore` is the constant extracted from the source text (`Gen/Limits.lean`); `out` is the run-time value of the
+  -- compiled `pub const MIN_SCORE`: cross-check of the extraction
+  | ["const"] => if out = "min:" ++ toString minScore then "ok const gen=rt" else "diff min:" ++ toString minScore
+  -- `out` = what the harness reads in the compiled source text (`include_str!`): the number the doc comment states for
+  -- `MAX_CELLS` and the constant itself; both must equal what tools/gen_tables.py extracted (else `diff`: the two
+  -- extractions disagree).  The budget of the model follows the constant; a stated number that differs from the
+  -- constant is a defect of the documentation ("the documented cell budget" would be ambiguous): reject.
+  | ["docbudget"] =>
+    let docS := match RbV.Gen.Limits.maxCellsDocumented with | some d => toString d | none => "none"
+    let want := "doc:" ++ docS ++ ",max:" ++ toString maxCells
+    if out ≠ want then "diff " ++ want else
+    match RbV.Gen.Limits.maxCellsDocumented with
+    | none => "ok docbudget gen=src doc-names-constant-only"
+    | some d => if d = maxCells then "ok docbudget gen=src doc=const"
+                else "reject documented-cell-budget:" ++ toString d ++ "-but-MAX_CELLS:" ++ toString maxCells
   | [capT, kwT, scT, wT, callsT] =>
     if !(capT.startsWith "cap:") then "bad-op cap" else
     match kwT.splitOn ":" with
